@@ -40,6 +40,9 @@ class UFs:
 
     def app(self, name, *args):
         args = tuple(z3.simplify(a) if isinstance(a, z3.ExprRef) else z3.RealVal(a) for a in args)
+        if name == 'floor':   # interpreted: z3's to_int on a real is the mathematical floor
+            self.used.add('floor (interpreted: to_real(to_int(x)))')
+            return z3.ToReal(z3.ToInt(args[0]))
         lst = self.apps.setdefault(name, [])
         for (a, r) in lst:
             if all(x.eq(y) for x, y in zip(a, args)):
@@ -765,6 +768,9 @@ class Exec:
             return
         if base in ('llvm.fma', 'llvm.fmuladd'):
             env[ins.res] = args[0] * args[1] + args[2]
+            return
+        if base == 'llvm.floor' or name in ('floorf', 'floor'):
+            env[ins.res] = self.lift1(lambda x: self.ufs.app('floor', x), args[0])
             return
         if base in ('llvm.sin', 'llvm.cos', 'llvm.pow', 'llvm.exp', 'llvm.log', 'llvm.exp2', 'llvm.log2'):
             nm = base.split('.')[1]
